@@ -103,6 +103,7 @@ def address_free(t, in_set=False):
 
 
 def build():
+    from prettyprinter import comment, trailing_comment
     r = Rng('c19-corpus')
     vals = []
     i = 0
@@ -126,6 +127,16 @@ def build():
         os.stat_result((33188, 1, 2, 1, 0, 0, 10, 100, 200, 300)),
         os.stat_result((Weird(), 1, 2, 1, 0, 0, 10, 100, 200, Weird())),
         os.stat_result((33188, 9, 2, 1, 0, 0, 10, 1, 2, 3)),
+        # values that are EQUAL (and hash alike) but must print differently: anything remembered by value confuses them
+        0.0, -0.0, [0.0, -0.0], 1, True, 1.0, [1, True, 1.0], 'alpha', valgen.subclass('str', 'plain')('alpha'),
+        b'raw', valgen.subclass('bytes', 'plain')(b'raw'), valgen.subclass('int', 'plain')(1),
+        (1, 2), valgen.subclass('tuple', 'plain')((1, 2)), [valgen.subclass('str', 'reprov')('alpha'), 'alpha'],
+        {'alpha': valgen.subclass('str', 'plain')('alpha'), 1: True, True: 1.0},
+        # comments: blank lines (built once or twice depending on the site) and texts that must wrap
+        trailing_comment([1, 2], 'first paragraph\n\nsecond paragraph'),
+        {comment('key', 'about the key\n\n\nthree lines later'): comment([1], ' ')},
+        [len, sorted, comment(3, 'a rather long comment that has to be wrapped at the narrow widths')],
+        trailing_comment((1,), '\n'), comment({'a': comment(1, 'x\n')}, '\n\ny'),
         # two long strings that share their first pieces but get different quotes
         "Don't panic, it's only a drill: " + 'lorem ipsum dolor sit amet ' * 8,
         "Don't panic, it's only a drill: " + 'lorem ipsum dolor sit amet ' * 8 + 'and then he said "hello" and "goodbye" and "again" and "more"',
